@@ -258,7 +258,7 @@ class Verifier(ExprMixin, StmtMixin, CallMixin, LibMixin, FoldMixin, Executor):
         allowed = set(self.contract_emits(func))
         for key, val in sorted(st.ghost.items(), key=lambda kv: str(kv[0])):
             if isinstance(key, str) and key.startswith("ev:") and key[3:] not in allowed and z3.is_expr(val):
-                if key[3:] in self.tracked_events():
+                if key[3:] in self.tracked_events() and not key.startswith("ev:select.arm:"):
                     self.oblige_final(st, "emits", "only-declared:" + key[3:], val == z3.BitVecVal(0, 64), 0,
                                       "operation %s is performed but not declared in `emits`" % key[3:])
 
